@@ -50,6 +50,7 @@ mod verif_kani_mod2 {
         }
         assert!(in_r == (in_a != in_b));
         assert!(a.vars.len() <= 4);
+        kani::cover!(in_r, "vacuity probe");
     }
 
     /// Ok(s) => check(s); Err => no assignment satisfies the system (2 variables of 8 bits, symbolic assignment)
@@ -85,7 +86,7 @@ mod verif_kani_mod2 {
         let mut copy = sys.clone();
         match copy.gaussian_elimination() {
             Ok(sol) => { assert!(sys.check(&sol)); }
-            Err(_) => { assert!(!sat); }
+            Err(_) => { assert!(!sat); kani::cover!(true, "vacuity probe: an unsolvable system is reachable"); }
         }
     }
 }
